@@ -153,6 +153,7 @@ impl Engine for CrashEngine {
             sweeper: None,
             create_empty_file: format == 3 && c.chance(1, 5),
             allow_ambiguous: false,
+            ring: gen_ring(seed),
         };
         let forged = property == "C03" || c.chance(1, 4);
         let flush_pct = if property == "C02" { 14 } else { 8 };
